@@ -28,6 +28,13 @@ pub mod net {
                 k.net.read(ep, buf, now)
             });
             match r {
+                Some(0) => {
+                    if with(|k| k.net.take_reset(ep)) {
+                        with(|k| k.fault("tcp_reset_reported"));
+                        return Poll::Ready(Err(io::Error::new(io::ErrorKind::ConnectionReset, "Connection reset by peer")));
+                    }
+                    Poll::Ready(Ok(0))
+                }
                 Some(n) => Poll::Ready(Ok(n)),
                 None => {
                     let id = kernel::me();
